@@ -345,6 +345,41 @@ R2.update({
  "C20-12": ("/tmp/seeds11/F/3", "C20", "multipart response, a failure in any part, consumer polls again (1-2 extra polls): error arm no longer clears the current part stream, stale stream polled, state runs past the end, index out of bounds", ["C06"]),
 })
 
+# round 12: property text and worktree only
+R2.update({
+ "C05-13": ("/tmp/seeds12/C/1", "C05", "entity strong ETag with an obs-text byte and an If-Range that is a DIFFERENT strong tag also containing one: identity test through to_str(), which fails for both (None == None), 206", []),
+ "C03-19": ("/tmp/seeds12/C/2", "C03", "a position written with more than 20 characters through leading zeros (bytes=000000000000000000010-...): 'longer than 20 digits is unparseable' early exit, header ignored, 200", ["C13"]),
+ "C05-14": ("/tmp/seeds12/C/3", "C05", "an If-Range that does not validate together with a Range whose specs are all unsatisfiable: only the Satisfiable arm is guarded, 416 instead of the complete 200", ["C03"]),
+ "C16-16": ("/tmp/seeds12/I/1", "C16", "a list with `*` placed BEFORE an explicit gzip / identity element with a differing weight (*, gzip;q=0): get_or_insert lets the earlier * win, result depends on order", ["C17"]),
+ "C20-13": ("/tmp/seeds12/I/2", "C20", "multipart body, any part failure, then one or more extra polls: the error arm frees `ranges` after computing the end state from its old length, next poll indexes an empty vector", ["C06"]),
+ "C16-17": ("/tmp/seeds12/I/3", "C16", "a space or tab BETWEEN the coding and its ';' (gzip ;q=0.5): the blank stays attached to the coding, element silently ignored", ["C17"]),
+ "C06-17": ("/tmp/seeds12/B/1", "C06", "multi-range without If-Range and an entity header value that is not valid UTF-8 (a lone Latin-1 byte): per-part copy through from_utf8_lossy, the byte becomes EF BF BD inside every part", ["C14"]),
+ "C02-12": ("/tmp/seeds12/B/2", "C02", "an EMPTY chunk from the entity stream before the last byte of the range: taken for the end of the stream, too-short error after a prefix", ["C01", "C07"]),
+ "C06-18": ("/tmp/seeds12/B/3", "C06", "multi-range without If-Range and add_headers leaving two or more values under ONE name: part headers iterate keys() and read h[k], later values dropped from every part", ["C14"]),
+ "C15-16": ("/tmp/seeds12/F/1", "C15", "HEAD + >= 2 ranges served as multipart + If-Range equal to the strong ETag + entity with headers: HEAD fast path always counts the entity headers per part", ["C06"]),
+ "C17-14": ("/tmp/seeds12/F/2", "C17", "HISTORY on one thread: two streaming_body calls whose Accept-Encoding values differ only in letter case (gzip, then GZIP): thread-local memo matched case-insensitively, the second inherits the first's answer", ["C16"]),
+ "C17-15": ("/tmp/seeds12/F/3", "C17", "gzip negotiated, level 1..9, and NO byte written before the writer is dropped (or only empty writes and flushes): lazy encoder never built, Content-Encoding: gzip with a zero-byte body", ["C09"]),
+ "C04-18": ("/tmp/seeds12/D/1", "C04", "If-Match / If-None-Match list containing a tag with an obs-text byte (>= 0x80): 'validity check' marks the list corrupt (If-None-Match ignored: 200 instead of 304; If-Match: 400)", ["C14"]),
+ "C04-19": ("/tmp/seeds12/D/2", "C04", "If-Modified-Since later than the wall clock (no If-None-Match): treated as invalid, 200 instead of 304", ["C14"]),
+ "C13-14": ("/tmp/seeds12/D/3", "C13", "entity of 2^64-1 bytes, >= 2 parts, summed part lengths in a 9-value window below 2^64: closing delimiter added with a plain +=, panic (checked build) / wrapped Content-Length", ["C01", "C06"]),
+ "C18-18": ("/tmp/seeds12/J/1", "C18", "a file whose mtime is before 1970 with a non-zero sub-second part: time rebuilt from mtime()/mtime_nsec() subtracts the nanoseconds", []),
+ "C19-16": ("/tmp/seeds12/J/2", "C19", "HISTORY on one FsDir: get(p, gzip) while p.gz is absent, then p.gz is created, then get(p, gzip) again: a never-invalidated 'plain only' set skips the .gz lookup", []),
+ "C18-19": ("/tmp/seeds12/J/3", "C18", "file of 1..=65536 bytes, ONE instance reused: an earlier stream read the whole file (cached in a OnceLock), the file is truncated afterwards, a later stream is answered from memory and succeeds", []),
+ "C14-15": ("/tmp/seeds12/E/2", "C14", "an entity ETag containing an obs-text byte or a tab, echoed in If-None-Match / If-Match: the list parser marks such tags corrupt (200 instead of 304; 400)", ["C04"]),
+ "C14-16": ("/tmp/seeds12/E/3", "C14", "HISTORY on one thread: two requests less than 1 s apart with a second boundary between them, the second for an entity modified in the new second: per-thread Date cache not expired at the boundary, Last-Modified exceeds Date", []),
+})
+
+R2.update({
+ "C08-12": ("/tmp/seeds12/G/1", "C08", "at least 129 chunks delivered back-to-back and a producer that does nothing afterwards (idle or dropped): 'cooperative yield' returns Pending after 128 chunks and registers the waker instead of waking itself, flushed bytes stay queued", ["C10", "C12"]),
+ "C11-15": ("/tmp/seeds12/G/3", "C11", "two consecutive Pending polls with DIFFERENT wakers and no writer wake-up in between, then abort (or flush / drop): waker stored only if none is registered, the stale first waker is woken, the waiting task never", ["C10"]),
+ "C09-15": ("/tmp/seeds12/H/1", "C09", "many small unflushed writes (1000 bytes each) then ONE flush right after the write during which flate2's 32 KiB buffer filled (59..61 pieces of random data at level 1; 63 pieces of ~80%-compressible data at any level): second flush only after a write >= 32 KiB", ["C08"]),
+ "C10-20": ("/tmp/seeds12/H/2", "C10", "consumer parked; producer writes a multiple of the chunk size, flushes and does not drop: completed chunks are queued without notification and flush returns early on an empty buffer, never waking", ["C08"]),
+ "C10-21": ("/tmp/seeds12/H/3", "C10", "consumer parked with waker A, re-polled spuriously with a fresh waker B, producer's flush lands between the reader's two lock acquisitions (stale waker dropped outside the lock, queue not re-checked): lost wake-up", ["C11"]),
+ "C01-11": ("/tmp/seeds12/A/1", "C01", "multipart GET (no matching If-Range) on an entity whose add_headers leaves a name with TWO values: per-part header length counted with keys_len(), Content-Length too small", ["C06", "C12"]),
+ "C12-18": ("/tmp/seeds12/A/2", "C12", "a zero-length write(&[]) while no chunk is in progress as the last write before a flush or the drop (identity coding): an empty chunk is queued; is_end_stream() true and hint 0 while it is still queued, then a frame", ["C08"]),
+ "C01-12": ("/tmp/seeds12/A/3", "C01", "multipart response with a part whose last byte position is 9, 99, 999...: length computed from the half-open end, one byte too large per such part", ["C06", "C12"]),
+})
+
 def sh(cmd, **kw):
     return subprocess.run(cmd, shell=True, capture_output=True, text=True, **kw)
 
